@@ -4,13 +4,13 @@ from __future__ import annotations
 from checks import ctxcommon
 
 PROP = "C01"
-GENERATED = ['OpSemantics', 'DtypeTables', 'Core', 'EvalLoop', 'SrcExpand', 'SrcShape', 'DimFlags', 'ShapeLoop']  # generated files this check's tie depends on
-LEAN_MODULES = ["Properties.C01", "Properties.C03p", "Properties.Core", "Properties.CoreEval", "Properties.Prov.Expand", "Properties.Prov.Shape", "Properties.CoreShape"]
+GENERATED = ['OpSemantics', 'DtypeTables', 'Core', 'EvalLoop', 'SrcExpand', 'SrcShape', 'DimFlags', 'ShapeLoop', 'ParserTables', 'TokLoop', 'ParseHelpers', 'ParseLoop']  # generated files this check's tie depends on
+LEAN_MODULES = ["Properties.C01", "Properties.C03p", "Properties.Core", "Properties.CoreEval", "Properties.Prov.Expand", "Properties.Prov.Shape", "Properties.CoreShape", "Properties.Tables", "Properties.CoreExpr"]
 RULE = (
     "corpus (witnesses of past findings) first; then seeded contexts: pick an assignment of sizes to names a,b,d (c,e derived) and tuples to "
-    "groups g,h, pick 1-4 annotated tensors over a 22-form dimension alphabet (literal, name, name=literal, name=expression, expression, "
+    "groups g,h, pick 1-4 annotated tensors over a 24-form dimension alphabet (literal, name, name=literal, name=expression, expression, "
     "..., *name), derive conforming arrays in numpy/torch/jax, apply 0-2 perturbations (axis resized, inserted, dropped, dtype swapped, "
-    "value None/non-array, provider value changed); tuples, optionals, return phase and provider scopes mixed in. "
+    "value None/non-array, provider value changed, the array object of another position passed again); tuples, optionals, return phase and provider scopes mixed in. "
     "non-trivial = distinct operation line with >=1 annotated array that passed the rank test of its first tensor"
 )
 
